@@ -90,7 +90,7 @@ func (c *Choices) ChooseP(k byte, n int, p float64) int {
 
 // Intn and Bernoulli are raw draws for strategies whose *result* is recorded
 // by the caller; never called in replay mode.
-func (c *Choices) Intn(n int) int            { return c.rng.Intn(n) }
+func (c *Choices) Intn(n int) int           { return c.rng.Intn(n) }
 func (c *Choices) Bernoulli(p float64) bool { return c.rng.Float64() < p }
 
 // Rng: xoshiro256** seeded through splitmix64.
@@ -105,7 +105,9 @@ func SplitMix(x uint64) uint64 {
 }
 
 // RunSeed derives the seed of run i of a batch.
-func RunSeed(batch uint64, i uint64) uint64 { return SplitMix(SplitMix(batch) ^ SplitMix(i*0x9e3779b97f4a7c15+1)) }
+func RunSeed(batch uint64, i uint64) uint64 {
+	return SplitMix(SplitMix(batch) ^ SplitMix(i*0x9e3779b97f4a7c15+1))
+}
 
 func NewRng(seed uint64) *Rng {
 	r := &Rng{}
